@@ -59,8 +59,20 @@ pub fn format_element(e: &Element, indent: usize) -> String {
 /// Format a vector of attributes as a string with a leading space
 pub fn format_attrs(attrs: &[Attribute]) -> String {
     let mut result = String::new();
+    let mut names_written: Vec<String> = Vec::with_capacity(attrs.len());
     for attr in attrs {
-        result += format!(" {}='{}'", attr.name().local_part(), &handle_special_chars(attr.value())).as_str();
+        // attributes in the xml namespace (xml:lang, xml:space) keep their (predeclared) prefix;
+        // otherwise only the local part is written, so two attributes can end up with the same name (e.g., 'href' and 'xlink:href') -- write the first
+        let name = if attr.name().namespace_uri() == Some("http://www.w3.org/XML/1998/namespace") {
+            format!("xml:{}", attr.name().local_part())
+        } else {
+            attr.name().local_part().to_string()
+        };
+        if names_written.contains(&name) {
+            continue;
+        }
+        result += format!(" {}='{}'", name, &handle_special_chars(attr.value())).as_str();
+        names_written.push(name);
     }
     result
 }
